@@ -549,6 +549,11 @@ func roundTrips(ctx context.Context, r *vk.Run, n int) {
 	}
 	ch := make(chan caseInfo, 64)
 	var wg sync.WaitGroup
+	wg.Add(1)
+	go func() { // next to the generated cases: it spends its time in file I/O
+		defer wg.Done()
+		largeCacheFile(r)
+	}()
 	for w := 0; w < 16; w++ {
 		wg.Add(1)
 		go func() {
